@@ -12,26 +12,33 @@ CHUNK = 1
 
 def cases(tier):
     out = []
-    names = Q.members(tier)
-    for backend in ("sql", "kv"):
-        for S in Q.subsets(names):
-            out.append((backend, S, tier))
+    for uname in ("U1", "U2"):
+        names = Q.members(tier, uname)
+        for backend in ("sql", "kv"):
+            for S in Q.subsets(names):
+                out.append((backend, S, tier, uname))
     return out
 
 
 def describe(case):
-    return {"backend": case[0], "store": list(case[1]), "tier": case[2]}
+    return {"backend": case[0], "store": list(case[1]), "tier": case[2], "universe": case[3] if len(case) > 3 else "U1"}
 
 
 _F = {}
 
 
-def filters_for(tier):
-    if tier not in _F:
-        singles = [[f] for f in Q.W_single(tier)]
-        multi = [fl for fl in Q.W_multi(tier) if len(fl) <= 5]
-        _F[tier] = singles + multi
-    return _F[tier]
+def filters_for(tier, uname="U1"):
+    if (tier, uname) not in _F:
+        if uname == "U2":
+            singles = [[f] for f in Q.W_single_U2(tier)]
+            fo = Q.field_options_U2()
+            multi = [[{"#t": ["a"]}, {"#t": ["ab"]}], [{"#t": ["a"], "since": 7}, {"#e": ["ab"]}], [{"#e": ["a", "ab"], "#p": [fo["#p"][0][0]]}, {"kinds": [2]}]]
+            _F[(tier, uname)] = singles + multi
+        else:
+            singles = [[f] for f in Q.W_single(tier)]
+            multi = [fl for fl in Q.W_multi(tier) if len(fl) <= 5]
+            _F[(tier, uname)] = singles + multi
+    return _F[(tier, uname)]
 
 
 def judge(store_events, filters, evs, eose, notices, closed):
@@ -55,27 +62,28 @@ def judge(store_events, filters, evs, eose, notices, closed):
 
 
 def run_case(case):
-    backend, S, tier = case
-    uni = Q.U1()
+    backend, S, tier = case[:3]
+    uname = case[3] if len(case) > 3 else "U1"
+    uni = Q.UNIVERSES[uname]()
     sess = seq.session(backend)
-    Q.build_store(sess, S)
+    Q.build_store(sess, S, uni)
     store_events = [uni[nm] for nm in S]
     byid = {e["id"]: nm for nm, e in uni.items()}
     viol = []
     n = 0
     nontrivial = 0
     planidx = {}
-    for filters in filters_for(tier):
+    for filters in filters_for(tier, uname):
         evs, eose, notices, closed, others = Q.answer(sess, filters)
         n += 1
         if evs:
             nontrivial += 1
         for clause, sig, detail in judge(store_events, filters, evs, eose, notices, closed):
             fk = Q.fkey(filters)
-            viol.append({"case": "%s|S=%s" % (backend, ",".join(S)), "clause": clause, "sig": "%s|%s" % (sig, fk),
+            viol.append({"case": "%s|%s|S=%s" % (backend, uname, ",".join(S)), "clause": clause, "sig": "%s|%s" % (sig, fk),
                          "detail": "%s | filters=%s | store={%s} | returned=%s" % (
                              detail, fk, ",".join(S), [byid.get(e["id"], e["id"][:8]) for e in evs])})
-    cid = "%s|S=%s" % (backend, ",".join(S))
+    cid = "%s|%s|S=%s" % (backend, uname, ",".join(S))
     return {"id": cid, "viol": viol, "outcome": None, "evals": n, "nontrivial": nontrivial > 0, "desc": describe(case),
             "extra": {"req_with_results": nontrivial},
             "sample": {"store": list(S), "backend": backend, "filter_lists": n, "with_results": nontrivial}}
@@ -83,20 +91,23 @@ def run_case(case):
 
 def coverage(tier, agg):
     fl = filters_for(tier)
+    fl2 = filters_for(tier, "U2")
     return {
         "rule": "stores = all subsets of the %d-member regular-event universe U1 (authors A,B,C; kinds 1,2,255,256; timestamps 10,20,20,20,20,30,30, "
                 "1700000000,1700000001,10; tag values a/ab/abc/b, quote, NUL, unicode, duplicate tag, delegation; ids ground to 00.. and ff..); "
                 "filter lists = single filters with every combination of <=3 of ids/authors/kinds/#e/#p/#t/#d values x since/until windows at "
                 "every timestamp +-1, plus 2..5-filter REQs; oracle = NIP-01 reference matcher: strict-window matches must be delivered, "
                 "an event matching k filters arrives <= k times; non-trivial case = store with at least one non-empty answer" % len(Q.members(tier)),
-        "filter_lists_per_store": len(fl),
-        "stores_per_backend": 2 ** len(Q.members(tier)),
+        "filter_lists_per_store": {"U1": len(fl), "U2": len(fl2)},
+        "stores_per_backend": {"U1": 2 ** len(Q.members(tier)), "U2": 2 ** len(Q.members(tier, "U2"))},
+        "U2": "second universe of byte-order neighbours (tag values extending a requested value through NUL, two requested values on one event, "
+              "equal timestamps) with its own filter language",
         "backends": ["sql", "kv"],
     }
 
 
 def replay(desc):
-    case = (desc["backend"], tuple(desc["store"]), desc.get("tier", "quick"))
+    case = (desc["backend"], tuple(desc["store"]), desc.get("tier", "quick"), desc.get("universe", "U1"))
     r = run_case(case)
     for v in r["viol"][:20]:
         print(v["clause"], v["detail"])
